@@ -172,6 +172,45 @@ def oracle_all(ctx, o, first_only=False):
                     "True exactly for secrets equal under the format's documented equivalences")
             if fails and first_only:
                 return fails
+    # ---- every identifier / variant a hasher can write x the boundary secrets (empty, one byte, text with a multi-byte character, the
+    #      truncation limit): some identifiers take a code path of their own (bcrypt's legacy $2$ repeats the password, scrypt's $7$ layout,
+    #      fshp's digests), which the random settings above reach rarely
+    for name in vc.all_names():
+        h = vc.handler(name)
+        sk = h.setting_kwds or ()
+        variants = []
+        base = vc.cheap_settings(h, rng)
+        if "ident" in sk:
+            variants += [dict(base, ident=iv) for iv in (getattr(getattr(h, "wrapped", h), "ident_values", None) or ()) if "2x" not in iv]
+        if name == "fshp":
+            variants += [dict(base, variant=v) for v in (0, 1, 2, 3)]
+        if name == "bcrypt_sha256":
+            variants += [dict(base, version=1, ident="2a"), dict(base, version=1, ident="2b"), dict(base, version=2)]
+        for kw in variants:
+            hh = vc.using(h, kw)
+            ck = vc.ctx_kwds(h)
+            lim = getattr(h, "truncate_size", None) or 0
+            for secret in ("", "a", "\u00e9", "pass word", "x" * lim if lim else "xyz", b"", b"\xff", b"ab" * 40):
+                inp = {"op": "ident-boundary", "hasher": name, "kwds": {k: (v.hex() if isinstance(v, bytes) else v) for k, v in kw.items()},
+                       "secret": secret if isinstance(secret, str) else secret.hex(), "bytes": isinstance(secret, bytes)}
+                sb = secret.encode("utf-8") if isinstance(secret, str) else secret
+                if vc.eff(name, sb) is None:
+                    continue
+                st, hs = vc.safe_call(lambda: hh.hash(secret, **ck))
+                if st == "err":
+                    if isinstance(hs, (UnicodeEncodeError, UnicodeDecodeError)):
+                        continue
+                    chk(name + ":ident-boundary-hash", False, inp, errname(hs) + ": " + str(hs)[:80], "hashing an admissible secret succeeds")
+                    continue
+                st, v = vc.safe_call(lambda: hh.verify(secret, hs, **ck))
+                chk(name + ":ident-boundary-verify", st == "ok" and v is True and hh.identify(hs) is True, inp, (hs, str(v)[:60]), "identified, verifies True")
+                other = (secret + "q") if isinstance(secret, str) else (secret + b"q")
+                ob = other.encode("utf-8") if isinstance(other, str) else other
+                if vc.eff(name, ob) is not None and vc.eff(name, ob) != vc.eff(name, sb):
+                    st, v = vc.safe_call(lambda: hh.verify(other, hs, **ck))
+                    chk(name + ":ident-boundary-other", st == "ok" and v is False, inp, str(v)[:60], "False for another secret")
+        if fails and first_only:
+            return fails
     # ---- context keyword `encoding`: the password is text in another code page; hash and verify must agree on it
     for name in [n for n in vc.all_names() if "encoding" in (getattr(vc.handler(n), "context_kwds", ()) or ())]:
         h = vc.handler(name)
@@ -281,6 +320,17 @@ def replay(ctx, inp):
             hs = hh.hash(secret, **ck)
             v = hh.verify(secret, hs, **ck)
             return {"fails": v is not True and inp["hasher"] not in vc.DISABLED, "observed": {"hash": hs, "verify": v}}
+        except Exception as e:  # noqa: BLE001
+            return {"fails": True, "observed": errname(e) + ": " + str(e)[:100]}
+    if inp.get("op") == "ident-boundary":
+        h = vc.handler(inp["hasher"])
+        kw = {k: (bytes.fromhex(v) if k == "salt" and isinstance(v, str) and inp["hasher"] in ("scrypt",) else v) for k, v in inp.get("kwds", {}).items()}
+        hh = vc.using(h, kw)
+        secret = bytes.fromhex(inp["secret"]) if inp.get("bytes") else inp["secret"]
+        try:
+            hs = hh.hash(secret, **vc.ctx_kwds(h))
+            v = hh.verify(secret, hs, **vc.ctx_kwds(h))
+            return {"fails": v is not True, "observed": {"hash": hs, "verify": v}}
         except Exception as e:  # noqa: BLE001
             return {"fails": True, "observed": errname(e) + ": " + str(e)[:100]}
     if inp.get("op") == "scrypt7-dollar-salt":
